@@ -187,7 +187,7 @@ def s_cop(c):
 def s_op(o, order=None):
     k = o["op"]
     if k == "sch":
-        return f"sch {s_spec(o)} {o['clock']}"
+        return f"{'job' if o.get('ctor') else 'sch'} {s_spec(o)} {o['clock']}"
     if k == "exec":
         scripts = o.get("scripts") or {}
         parts = [str(len(scripts))]
